@@ -37,7 +37,9 @@ EXPLANATION = (
     "itself PRINT); (R9 = C01.R5) every PrintState field a per-item operation modifies is written again by reset() or "
     "print_end(): the format cursor of PRINT USING starts at the beginning of the format in every statement; (R10) when a "
     "value is formatted the cursor is first taken modulo the length of the format, on every path to the scanning routines: "
-    "the format is reused cyclically.")
+    "the format is reused cyclically; (R11) every PrintState field a per-item operation modifies is written when a PRINT "
+    "statement starts (the reset that selecting the printer performs), not only when it ends: an error can end a "
+    "statement before PrintEnd runs.")
 NOT_DECIDED = [
     "the digits a number is rendered as (Display of f32 / f64 versus QBasic's rendering)",
     "PRINT USING: field scanning, cyclic reuse of the format, rounding (value-level string arithmetic)",
@@ -1262,6 +1264,72 @@ def r10_format_is_reused_cyclically(ctx, rule="C16.R10"):
     ctx.require(rule, 1)
 
 
+def r11_a_statement_starts_clean(ctx, rule="C16.R11"):
+    """An error can end a PRINT statement before PrintEnd runs (PRINT "a"; 1 / Z under ON ERROR ... RESUME NEXT).  What
+    the aborted statement left in the VM's print state must not reach the next one: every field a per-item operation
+    (separator, value, format, handle) modifies is written by the routine that runs when a PRINT statement *starts* -
+    the reset that selecting the printer performs - and not only by the one that runs when it ends."""
+    prog = ctx.prog
+    from .c01 import _fields_touched
+    ms = {f.name: f for f in prog.methods_of("PrintState") if f.kind != "closure"}
+    one = ctx.anchor_method("Interpreter", "interpret_one")
+    from .c05 import _arm_regions
+    _sw, regions = _arm_regions(prog, one, "::Instruction")
+    if "PrintSetPrinterType" not in regions:
+        raise CheckError("%s: interpret_one has no arm for PrintSetPrinterType" % rule)
+    start = []
+    for g, t in _region_deep_calls(prog, one, regions["PrintSetPrinterType"], depth=2):
+        h = _resolve(prog, t)
+        if h is not None and h.name in ms and h.id == ms[h.name].id:
+            start.append(h)
+    if not start:
+        raise CheckError("%s: the arm of PrintSetPrinterType calls no PrintState method" % rule)
+    # what the start of a statement writes: the methods the arm calls, and the PrintState methods those call
+    written = set()
+    seen = set()
+    work = list(start)
+    while work:
+        h = work.pop()
+        if h.id in seen:
+            continue
+        seen.add(h.id)
+        written |= _fields_touched(h.body)
+        for _b, t in h.body.calls():
+            g = _resolve(prog, t)
+            if g is not None and g.name in ms and g.id == ms[g.name].id:
+                work.append(g)
+    start_names = {prog.fns[i].name for i in seen}
+    per_item = {}
+    for v in ("PrintComma", "PrintSemicolon", "PrintValueFromA", "PrintSetFileHandle", "PrintSetFormatStringFromA"):
+        if v not in regions:
+            continue
+        for g, t in _region_deep_calls(prog, one, regions[v], depth=2):
+            h = _resolve(prog, t)
+            if h is not None and h.name in ms and h.id == ms[h.name].id and h.name not in start_names:
+                todo = [h]
+                done = set()
+                while todo:
+                    x = todo.pop()
+                    if x.id in done:
+                        continue
+                    done.add(x.id)
+                    for fld in _fields_touched(x.body):
+                        per_item.setdefault(fld, set()).add(x.name)
+                    for _b, t2 in x.body.calls():
+                        y = _resolve(prog, t2)
+                        if y is not None and y.name in ms and y.id == ms[y.name].id and y.name not in start_names:
+                            todo.append(y)
+    if len(per_item) < 3:
+        raise CheckError("%s: only %d PrintState fields recognised as modified per item" % (rule, len(per_item)))
+    for fld in sorted(per_item):
+        ctx.decide(fld in written, rule, "%s:PrintState.%s" % (rule, fld), start[0].loc,
+                   "written when a statement starts (%s)" % sorted(start_names),
+                   "PrintState.%s is modified by %s but not written when a PRINT statement starts (%s): what a statement that "
+                   "an error ended early left there reaches the next PRINT (`PRINT \"a\"; 1 / Z` under RESUME NEXT, then a bare "
+                   "PRINT: no line end)" % (fld, sorted(per_item[fld]), sorted(start_names)))
+    ctx.require(rule, 4)
+
+
 def run(ctx):
     common.install(ctx)
     devices = r1_device_dispatch(ctx)
@@ -1277,3 +1345,4 @@ def run(ctx):
     from . import c01
     c01.r5_print_state_is_statement_scoped(ctx, "C16.R9")
     r10_format_is_reused_cyclically(ctx)
+    r11_a_statement_starts_clean(ctx)
